@@ -235,6 +235,21 @@ COVER(g_nq == 1 && g_cb_mode == 0 && g_t0->task_busy == 0)
 	                          ? ((a)->a_result == EXP_CODE(i) && (a)->a_expire == NNI_TIME_NEVER &&  \
 	                                !(a)->a_task.task_prep && (a)->a_task.task_node.ln_next != NULL) \
 	                          : (a)->a_task.task_prep))))
+/* Never called in the expire units: both have the type of an indirect-call target of the code under
+ * contract (task_cb(arg) / cancel_fn(aio, arg, rv)) and are therefore syntactic candidates at those call
+ * sites.  REPLACED by these contracts in the expire units: the precondition `false` is asserted at every
+ * call site, i.e. it is proved that the expire thread never reaches them (a sleep is completed in place,
+ * not through nni_sleep_cancel); any implementation satisfies a contract with precondition false. */
+void nni_aio_free_cb(void *aio)
+__CPROVER_requires(false)
+__CPROVER_assigns()
+__CPROVER_ensures(true)
+;
+static void nni_sleep_cancel(nng_aio *aio, void *arg, nng_err rv)
+__CPROVER_requires(false)
+__CPROVER_assigns()
+__CPROVER_ensures(true)
+;
 static void nni_aio_expire_loop(void *arg)
 __CPROVER_requires(arg == (void *) g_eq && VP_LOCKS_CLEAR && g_expire_unit && g_cb_arg_is_task && g_na <= 2 && !g_race_done)
 __CPROVER_requires(g_na == 0 ? EQ_EMPTY(g_eq) : (g_na == 1 ? EQ_IS1(g_eq, g_a0) : EQ_IS2(g_eq, g_a0, g_a1)))
